@@ -865,7 +865,60 @@ def file_readers(content, tbq):
         if not tbq and 'CRASH' not in out['FileReaderStream']:
             alt = _by_next(ST.FileReaderStream(f.name), content.count(b'\n') + 1)
             out['FileReaderStream by next()'] = alt if isinstance(alt, str) else _emit([(0, 'D', t) for t in alt], None)
+    if not tbq:
+        diff = _cli(content)
+        if diff:
+            return diff
     return _family(out)
+
+
+def _cli(content):
+    """The command line front-end (pyais/main.py) is one more ingestion path: `ais-decode -f FILE -o OUT` prints
+    str(msg.decode()) for every sentence the file reader delivers, `ais-decode single LINE...` the same for the
+    lines given as arguments (plus a warning line after a sentence whose checksum is wrong)."""
+    import argparse
+    import contextlib
+    import pyais.main as CLI
+
+    def expected(reader, warn):
+        exp = []
+        try:
+            for m in reader:
+                exp.append(str(m.decode()))
+                if warn and not m.is_valid:
+                    exp.append('WARNING: Checksum invalid')
+        except Exception as e:  # noqa
+            return ''.join(x + '\n' for x in exp), type(e).__name__
+        return ''.join(x + '\n' for x in exp), None
+
+    def actual(fn, ns):
+        buf = io.StringIO()
+        ns.out_file = buf
+        try:
+            with contextlib.redirect_stdout(buf):
+                rc = fn(ns)
+        except Exception as e:  # noqa
+            return buf.getvalue(), type(e).__name__
+        return buf.getvalue(), None if rc == 0 else 'exit code %r' % (rc,)
+
+    exp = expected(ST.BinaryIOStream(io.BytesIO(content)), False)
+    got = actual(CLI.decode_from_file, argparse.Namespace(in_file=io.BytesIO(content)))
+    if exp != got:
+        return 'READERS-DIFFER BinaryIOStream+decode=%s ais-decode -f=%s' % (_cli_show(exp), _cli_show(got))
+    try:
+        texts = [l.decode('utf-8') for l in content.split(b'\n')]
+    except UnicodeDecodeError:
+        return None
+    exp = expected(ST.ByteStream([t.encode() for t in texts]), True)
+    got = actual(CLI.decode_single, argparse.Namespace(messages=texts))
+    if exp != got:
+        return 'READERS-DIFFER ByteStream+decode=%s ais-decode single=%s' % (_cli_show(exp), _cli_show(got))
+    return None
+
+
+def _cli_show(r):
+    text, e = r
+    return '%d lines%s' % (text.count('\n'), '' if e is None else ' then ' + e)
 
 
 def show_tb(tb):
